@@ -48,6 +48,9 @@ def att_text(rng, root):
 FAILING = ['x\nSCHEDULE First\n  y\n  ANNEXURE An annex\n    P{a=b c} z\n', 'x\nAPPENDIX\n  P{1a b} z\n',
            'x\nATTACHMENT h\n  ANNEXURE\n    SCHEDULE\n      bad \x01 char\n']
 
+OTHER_URIS = ['/za/act/2009/10', '/za-cpt/act/by-law/2009/10/afr@2012-01-01', '/akn/za/act/gn/2020/R1234', '/akn/za/judgment/ZACC/2022/15/eng@2022-03-01', '/na/act/p/1990-03-21/1/eng:2001-01-01',
+              '/akn/un/statement/deliberation/unga/2011-03-09/65-251/fra@']
+
 def _oracle(args):
     uri, root, prefix, text = args[:4]
     from bluebell.parser import AkomaNtosoParser
@@ -157,6 +160,9 @@ def search(ctx, budget):
     for _ in range(ctx.n(500, 30000) * (budget - 1)):
         root = ctx.rng.choice(gen.ROOTS7)
         cs.append((ctx.rng.choice(stages.URIS), root, '', att_text(ctx.rng, root)))
+    # FRBR URIs in other shapes: without the akn prefix (older collections), with locality / subtype / actor / language and date, capitals
+    for i, c in enumerate(list(cs[::6])):
+        cs.append((OTHER_URIS[i % len(OTHER_URIS)],) + tuple(c[1:4]))
     # a third of the documents again, on a parser object that has just failed inside an attachment
     cs += [c[:4] + ([ctx.rng.choice(FAILING) for _ in range(ctx.rng.randint(1, 2))],) for c in cs[::3]]
     res = impl.pmap(_oracle, cs, chunk=8)
